@@ -238,6 +238,14 @@ Definition mpending (s : mstate) (t : tid) : list (stream * msg) :=
   end.
 
 (* ------------------------------------------------------------------------------------------------------------ *)
+(* A member that PANICS while it is given a record (the caller recovers): the loop over the members is abandoned, and
+   the composite's mutex is released iff its Unlock is deferred — [deferred] is the GENERATED fact
+   composite_unlocks_deferred (Gen.v).  Otherwise the lock stays with the producer for ever and every later call
+   blocks. *)
+Definition mpanic (deferred : bool) (s : mstate) (t : tid) : mstate :=
+  mkM (upd (mprog s) t (tl (mprog s t))) (upd (mpcs s) t MIdle)
+      (if deferred then None else mlock s) (members s) (glog s).
+
 (* Part 2b.  WHO the members of a composite are.  NewCombinedLoggers / NewMultipleLoggers (multiple_logger.go:122-155)
    and NewMultipleWritersWithSource / AddWriters (writer.go:30-36, 74-78) take a variadic list — i.e. possibly a slice
    OWNED BY THE CALLER, with spare capacity — and hand it to Append / AddWriters:
